@@ -1,9 +1,67 @@
+import SwayVerif.Model.FmtSpec
 import SwayVerif.Driver.Util
-/-! Driver for C18 (stub — replace `answer`; keep `run`). -/
+/-!
+Driver for C18.
+* `idem <cfg> <id> ;; <status> same=<0|1> len1=… len2=… [at=… ctx1=… ctx2=… fp=…]` — the real formatter applied twice
+  (the comparison of the two texts is done by the harness; status `rej-*` = the formatter did not accept the source,
+  which is not a violation; a panic is not one either, but `format` is specified to return a `Result`, so it is
+  reported as a disagreement with that contract: `agree=0`). `prop` = the second pass returned exactly the same text.
+* `nls <style> <text> <raw> ;; ok <out> <out2>` — newline-style kernel through the verif hook: `agree` = model
+  `applyStyle` equals `out`; `prop` = idempotent (`out2 = out`) whenever the text has no `\r\r\n`
+  (hypothesis of `newline_style_idempotent`) and all other characters are preserved.
+* `nlseq <len> <thr> ;; ok <n>|panic` — newline-sequence clamp through the verif hook.
+-/
 namespace SwayVerif.Driver.C18
-open SwayVerif.Driver
+open SwayVerif.FmtSpec SwayVerif.Driver
 
-def answer (_line : String) : String := "unimplemented agree=0 prop=0"
+def style? : String → Option Style
+  | "auto" => some .auto | "windows" => some .windows | "unix" => some .unix | "native" => some .native | _ => none
+
+def kvOf (ts : List String) (k : String) : Option String :=
+  (ts.find? (·.startsWith (k ++ "="))).map fun t => (t.drop (k.length + 1)).toString
+
+def answer (line : String) : String :=
+  let (c, i) := splitCase line
+  match c with
+  | ["idem", cfg, _id] =>
+    (match i with
+     | st :: rest =>
+       let accepted := !(st.startsWith "rej-" || st = "panic1")
+       let same := kvOf rest "same" = some "1"
+       if st = "panic1" || st = "panic2" then s!"skip agree=0 prop={b01 (st = "panic1")} status={st} cfg={cfg}"
+       else if !accepted then s!"skip agree=1 prop=1 status={st} cfg={cfg}"
+       else s!"{if same then "same" else "differ"} agree=1 prop={b01 same} status={st} cfg={cfg}"
+     | [] => "bad-impl agree=0 prop=0")
+  | ["nls", sty, text, raw] =>
+    (match style? sty, parseCps? text, parseCps? raw with
+     | some st, some text, some raw =>
+       let m := applyStyle st text raw
+       (match i with
+        | ["ok", o1, o2] =>
+          (match parseCps? o1, parseCps? o2 with
+           | some o1, some o2 =>
+             let hyp := !hasCRCRLF text
+             let prop := (!hyp || o2 = o1) && eraseNewlines o1 = eraseNewlines text
+             s!"{showCps m} agree={b01 (m = o1)} prop={b01 prop} kernel=nls sys={if sysType st raw = .windows then "windows" else "unix"} hyp={b01 hyp} idem={b01 (o2 = o1)}"
+           | _, _ => "bad-impl agree=0 prop=0")
+        | _ => s!"{showCps m} agree=0 prop=0 kernel=nls")
+     | _, _, _ => "bad-op agree=0 prop=0")
+  | ["nlseq", len, thr] =>
+    (match len.toNat?, thr.toNat? with
+     | some len, some thr =>
+       let m := fmtNewlineSeq len thr
+       let ms := match m with | some n => s!"ok {n}" | none => "panic"
+       let impl := " ".intercalate i
+       -- property of the kernel: whatever it wrote, a second pass over `written + 1` newlines writes the same
+       let prop := match i with
+         | ["ok", n] => (match n.toNat? with
+            | some n => (fmtNewlineSeq (n + 1) thr == some n) && n ≤ thr
+            | none => false)
+         | ["panic"] => len = 0
+         | _ => false
+       s!"{ms} agree={b01 (ms = impl)} prop={b01 prop} kernel=nlseq clamped={b01 (len > thr)}"
+     | _, _ => "bad-op agree=0 prop=0")
+  | _ => "bad-op agree=0 prop=0"
 
 def run : IO Unit := do
   lineLoop (← IO.getStdin) (← IO.getStdout) answer
